@@ -58,6 +58,21 @@ CLAIMED['C16'] = {
     'design': '§5 C16',
 }
 
+CLAIMED['C19'] = {
+    'text': 'Static classification of every natural loop (~920) in the crate as terminating (finite iterator / counter / '
+            'serde input / drained, visited-guarded or budgeted work list; 6 table entries with the termination '
+            'argument), of the 5 recursive call-graph cycles with their bound idioms re-checked, of the explicit panic '
+            'sites per function against a classified table, a ban on keyed slot-map indexing, and a call-graph fixed '
+            'point showing that a caller-supplied vertex passes a finiteness validation before it can reach storage '
+            '(constructors and k=1 flips are reasoned table entries). Decides "no unbounded loop / recursion, no new '
+            'panic site, non-finite input gated"; not complexity, stack depth or arithmetic asserts.',
+    'note': 'Trusted: rustc MIR; finiteness of std/slotmap/smallvec iterators; the LOOP / PANIC / FINITE tables in '
+            'engine/rules/c19.py (each entry with a reason). Idiom classifiers: an unrecognised but correct new loop or '
+            'expect() is reported as unclassified and needs a table line.',
+    'technique': 'loop / recursion / panic-site classification and call-graph fixed point over rustc MIR',
+    'design': '§5 C19',
+}
+
 NOT_APPLICABLE = {
     'C04': 'verdict is the sign of floating-point in-sphere determinants vs exact arithmetic (numerical); the only structural handle is a delegation shape that a correct re-implementation would break',
     'C10': 'correctness of point location is a sign pattern of orientation determinants along a walk (geometric); loop bound is covered under C19',
